@@ -31,7 +31,7 @@ CHECKS['C01'] = dict(
          'seeded random histories over universes of 4/16/64/1024 keys. distinct = distinct (configuration, tree shape) pairs '
          'reached, shape = pre-order of (key, colour).',
     exhaustive=lambda res, tier: False,
-    require=['content_compares', 'put_replace', 'remove_absent', 'remove_inner_with_successor', 'remove_leaf_or_bottom', 'exhaustive_shapes'],
+    require=['content_compares', 'put_replace', 'remove_absent', 'remove_inner_with_successor', 'remove_leaf_or_bottom', 'exhaustive_shapes', 'cases_where_successful_allocations_leave_errno_enomem', 'gets_compared', 'long_key_tables'],
     assumptions=TREE_ASSUME)
 
 CHECKS['C02'] = dict(
@@ -39,8 +39,8 @@ CHECKS['C02'] = dict(
     jobs=tree_jobs('C02', ['--universe', '10', '--cases', '600', '--big', '16', '--bign', '5000'], ['--universe', '13', '--cases', '24000', '--big', '64', '--bign', '20000']),
     rule='evaluation = one put/remove/get (including failed removes, replacing puts, and puts that fail because their 1st/2nd/3rd allocation fails - from every shape) after which the independent walker '
          '(order, black root, no red-red, equal black height, no right-leaning lone red, node count) and qtreetbl_check() are evaluated; '
-         'lookup cost = comparator calls of getobj, bound 2^cmp <= (n+1)^2. distinct = distinct (configuration, shape) pairs.',
-    require=['structure_checks', 'lookups_cost_checked', 'exhaustive_shapes', 'remove_absent', 'put_replace', 'failed_or_fault_injected_puts_checked'],
+         'lookup cost = comparator calls of getobj, bound 2^cmp <= (n+1)^2. distinct = distinct (configuration, shape) pairs.' ' Second job (h_scale): trees of 300 007 / 70 001 / 300 procedural keys (1 200 007 thorough) built ascending, descending and permuted, values up to 1 MiB, every key read after build / removal of min and max / thinning / re-put / churn / drain / reuse; 300 binary keys of 64..128 KiB; every fifth case of h_tree runs with successful allocations leaving errno=ENOMEM.' ' Second job (h_scale): the O(n) LLRB walker (order, colours, black height, height bound, node count, qtreetbl_check) after every phase of trees with up to 300 007 keys (1 200 007 thorough) and on trees with keys of 64..128 KiB.',
+    require=['structure_checks', 'lookups_cost_checked', 'exhaustive_shapes', 'remove_absent', 'put_replace', 'failed_or_fault_injected_puts_checked', 'structure_nodes_walked', 'long_key_tables'],
     assumptions=TREE_ASSUME)
 
 CHECKS['C03'] = dict(
@@ -48,16 +48,16 @@ CHECKS['C03'] = dict(
     jobs=tree_jobs('C03', ['--universe', '9', '--cases', '400'], ['--universe', '12', '--cases', '24000']),
     rule='evaluation = one operation of a history of put/remove/complete walks/abandoned walks/nearest searches; every complete '
          'walk from a zeroed cursor is compared element by element (key, key size, value, value size) with the model order and must end once. A directed epoch sweep places exactly k traversal starts of one kind (nearest searches, abandoned continuations, abandoned walks, completed continuations, mixed) between audited walks for k around one and two wraps of the 8-bit counter. '
-         'distinct = distinct (configuration, tree shape, epoch value) triples at which an audited walk completed.',
-    require=['complete_walks_audited', 'abandoned_walks', 'epoch_wraps', 'walks_started_after_fresh_insert', 'walks_started_after_root_change', 'epoch_sweep_histories'],
+         'distinct = distinct (configuration, tree shape, epoch value) triples at which an audited walk completed.' ' Second job (h_scale): complete walks (copying and not) over trees of up to 300 007 keys after build / thinning / re-put / churn / drain / reuse, and over keys of 64..128 KiB.',
+    require=['complete_walks_audited', 'abandoned_walks', 'epoch_wraps', 'walks_started_after_fresh_insert', 'walks_started_after_root_change', 'epoch_sweep_histories', 'walk_elements_compared'],
     assumptions=TREE_ASSUME + ['CPU budget 2 s per getnext call decides non-termination'])
 
 CHECKS['C04'] = dict(
     title='nearest-key search floor semantics / termination', level='exploration',
     jobs=tree_jobs('C04', ['--universe', '9', '--cases', '600'], ['--universe', '12', '--cases', '16000']),
     rule='evaluation = one operation; every find_nearest result is compared with floor(probe) on the model (min if no floor, ENOENT on empty) under a 2 s CPU budget; '
-         'continuations are audited as a multiset when no walk is pending. distinct = distinct (configuration, tree shape, probe key) triples.',
-    require=['probes', 'probe_equal', 'probe_in_gap', 'probe_below_min', 'probe_above_max', 'probes_after_root_change', 'continuations_audited'],
+         'continuations are audited as a multiset when no walk is pending. distinct = distinct (configuration, tree shape, probe key) triples.' ' Second job (h_scale): below-minimum and above-maximum probes after every put of the build phase of 300 007-key trees (three insertion orders), 400 random probes per audit with two complete continuations, probes among keys of 64..128 KiB.',
+    require=['probes', 'probe_equal', 'probe_in_gap', 'probe_below_min', 'probe_above_max', 'probes_after_root_change', 'continuations_audited', 'edge_probes'],
     assumptions=TREE_ASSUME + ['CPU budget 2 s per call decides non-termination'])
 
 
@@ -68,9 +68,9 @@ CHECKS['C05'] = dict(
     rule='evaluation = one API call (put/putstr/putstrf/putint/get/getstr/getint/remove/clear/size/getnext walk) compared with an association-array model; '
          'after every operation of small configurations (every 16th otherwise) every universe key is re-read and the chain walker re-checks slot placement '
          '(reference MurmurHash3), stored hashes, duplicates and the count. Ranges 1,2,3,7,64,default; removals chosen by chain position head/middle/tail/only; one key style consists of pairs of distinct keys with identical full 32-bit hashes (found by birthday search with the reference hash). '
-         'distinct = distinct (universe, range, chain layout) states after a mutation.',
+         'distinct = distinct (universe, range, chain layout) states after a mutation.' ' Second job (h_scale): tables of 300 007 keys (ranges default, 100003, 1000, 7, 1), removal oldest-first of every second key, every key re-read, chain walker, complete walks; thorough: an index range of 3*2^30 slots.',
     require=['content_compares', 'structure_checks', 'walks_audited', 'remove_chain_head', 'remove_chain_middle', 'remove_chain_tail',
-             'remove_only_node', 'remove_absent', 'put_replace', 'getint', 'histories_with_full_hash_collisions'],
+             'remove_only_node', 'remove_absent', 'put_replace', 'getint', 'histories_with_full_hash_collisions', 'gets_compared', 'walk_elements_compared'],
     assumptions=['association-array model and reference MurmurHash3 x86_32 (refs/ref_hash.c, validated against published vectors)',
                  'x86-64 / glibc / gcc 12; zero-length values are not generated (malloc(0) is implementation-defined)'])
 
@@ -101,10 +101,10 @@ CHECKS['C06'] = dict(
          'the exact fit predicate (free>=1 and slots(new)<=free+slots(old)), (num,maxslots,usedslots), get of every universe key and an audited walk, after every operation. '
          'Phase A: breadth-first over every image reachable for capacities 2..N (N = 7 quick, 12 thorough) with 5 colliding keys (two per home, long keys sharing 16 bytes) x 3 value lengths (1/2/3 slots), '
          'ops put/remove/remove_by_idx(every index), images de-duplicated by a normalised copy; phase B random histories, capacities 2..257, keys up to 65535 bytes, fill/churn-at-full/drain phases; thorough tier: one collision chain of 32768 keys in a table of 33000 slots. Regions carry 0..slot-1 bytes of slack, and a second handle attached to the same memory is checked against the model. '
-         'distinct = distinct normalised images.',
+         'distinct = distinct normalised images.' ' Second job (h_scale): tables of 300 007 / 70 001 / 40 000 / 1100 slots filled to refusal (values up to 2270 slots, every fifth key longer than 16 bytes), exact fit predicate on every put, every key re-read, counters, complete walk after fill / thinning / replacement / churn / clear / reuse.',
     require=['walks_audited', 'put_new_refused', 'put_replace_refused', 'put_replace_ok', 'branch_empty_home', 'branch_same_home_chain',
              'branch_relocate_collision_block', 'branch_relocate_extension_block', 'remove_by_idx_promoting_collision_key', 'walks_with_removal',
-             'exhaustive_images'],
+             'exhaustive_images', 'gets_compared', 'put_does_not_fit'],
     assumptions=HASHARR_ASSUME)
 
 CHECKS['C07'] = dict(
@@ -113,7 +113,7 @@ CHECKS['C07'] = dict(
     rule='same executions as C06. After every operation the independent walker checks the slot graph (free/leading/collision/extension classes, collision counts, back-links, '
          'acyclic terminated value chains, each extension reached once, sizes, header counters, home index by reference MurmurHash3); after every operation of phase A and every 8th of phase B '
          'a second handle is attached to the same region and to a byte copy at a different 4-byte-aligned address and must observe identical size triple, values and walk; histories switch over to the copy. '
-         'The region lies between guard zones (pattern-verified in the plain build, ASan-poisoned 64 KiB in the asan build). distinct = distinct normalised images.',
+         'The region lies between guard zones (pattern-verified in the plain build, ASan-poisoned 64 KiB in the asan build). distinct = distinct normalised images.' ' Second job (h_scale): O(n) image walker (incl. value-chain byte totals) and a relocated attached copy after every phase of tables with up to 300 007 slots.',
     require=['images_walked', 'attach_relocate_comparisons', 'switch_overs_to_relocated_copy', 'remove_by_idx_out_of_range', 'exhaustive_images'],
     assumptions=HASHARR_ASSUME + ['relocation targets are 4-byte aligned (natural alignment of the image structs)'])
 
@@ -124,9 +124,9 @@ CHECKS['C08'] = dict(
     rule='evaluation = one operation (put/putstr/putstrf/putint, get/getstr/getint, getmulti, remove, full and name-filtered walks with both copy flags, '
          'removeobj of the first/last/only/middle entry during a walk, sort, save+load with and without encoding, clear) compared with an ordered-multimap model '
          'parameterised by the 4 options; after every operation the raw chain (public links) is compared entry by entry with the model order and the link invariants are checked. '
-         'All 16 option combinations, names differing only in case. distinct = distinct (option combination, name sequence) states.',
+         'All 16 option combinations, names differing only in case. distinct = distinct (option combination, name sequence) states.' ' Second job (h_scale): tables of 300 007 entries (20 000 with INSERTTOP) under 6 option sets: walk order compared entry by entry, sampled get/getmulti, 150 multi-removals, save+load of the whole table, sort of 4000 entries; names of 257/300/4000 bytes in h_listtbl.',
     require=['order_compares', 'full_walks_audited', 'named_walks_audited', 'getmulti', 'removeobj_first', 'removeobj_last', 'removeobj_only', 'removeobj_middle',
-             'sorts', 'save_load_roundtrips', 'save_load_append_roundtrips', 'remove_multiple'],
+             'sorts', 'save_load_roundtrips', 'save_load_append_roundtrips', 'remove_multiple', 'gets_compared'],
     assumptions=['ordered-multimap model (h_listtbl.c); strcmp/strcasecmp of the C library define key equality and sort order',
                  'save/load: names are identifier-like, values are strings; raw (unencoded) mode only for values without newline and without leading/trailing blanks'])
 
@@ -137,9 +137,9 @@ CHECKS['C09'] = dict(
     rule='evaluation = one operation compared with an array-of-byte-strings model (result, out-size, errno class ERANGE/ENOBUFS/EINVAL/ENOENT), followed by a full comparison of the '
          'chain (public links, both directions), size() and datasize(). Exhaustive sweep: every (n<=12, index in [-n-2,n+2], op in addat/getat/popat/removeat, size limit none/n-1/n/n+1) cell on a fresh list; '
          'random histories of list (all operations incl. setsize, reverse, toarray, tostring, getnext), queue (FIFO), stack (LIFO) and grow buffer (concatenation). '
-         'distinct = sweep cells + distinct (container kind, element-prefix sequence) states.',
+         'distinct = sweep cells + distinct (container kind, element-prefix sequence) states.' ' Second job (h_scale): lists of 300 007 / 70 001 / 65 537 elements (values up to 1 MiB): counts, byte total, walk, toarray, index-addressed get/insert/pop/remove around 65535 and across the range, reverse, drain from both ends, reuse; queue/stack/grow buffer with 300 007 elements.',
     require=['sweep_cells', 'refused_calls_verified_effect_free', 'add_refused_full', 'add_refused_range', 'access_refused_range', 'walks_audited',
-             'flattenings_audited', 'reversals', 'push_refused_full', 'pop_on_empty', 'grow_adds'],
+             'flattenings_audited', 'reversals', 'push_refused_full', 'pop_on_empty', 'grow_adds', 'getat_compared', 'toarray_compared'],
     assumptions=['array model with the documented index conventions (insertion: negative i -> n+i+1, valid 0..n; access: negative i -> n+i, valid 0..n-1)',
                  'popstr/getstr are only applied to NUL-terminated elements, popint/getint only to 8-byte elements (anything else is a caller error)'])
 
@@ -150,9 +150,9 @@ CHECKS['C10'] = dict(
     rule='evaluation = one operation compared with an array-of-fixed-size-elements model (result, returned bytes, errno ERANGE/ENOENT/EINVAL), followed by a comparison of the whole '
          'element buffer, size(), element size, num<=max and data!=NULL iff max>0. Exhaustive sweep: every (n<=10, index in [-n-2,n+2], element size 1/3/8/17/64, policy exact/linear/double, '
          'initial capacity 0/1/n/n+3, op addat/getat/setat/popat/removeat) cell; random histories with resize to 0 / at or below n / above n / to a capacity that can not be allocated / to a capacity whose byte count overflows size_t (both must be refused without effect) interleaved with middle insertion and removal. '
-         'distinct = sweep cells + distinct (element size, policy, length, capacity, content prefix) states.',
+         'distinct = sweep cells + distinct (element size, policy, length, capacity, content prefix) states.' ' Second job (h_scale): vectors of up to 1.2 M elements (sizes 1, 3, 8, 64 bytes, 3 MiB, 16 MiB) x 3 policies: raw buffer compared element by element after build, reverse, 120 index-addressed inserts/pops/removals with 64 KiB / 1 MiB / whole-array tails, toarray, shrinking/growing resizes, resize(0), reuse; thorough: 2 GiB + 4480 bytes behind the removed element.',
     require=['sweep_cells', 'refused_calls_verified_effect_free', 'automatic_growths', 'resize_to_zero', 'resize_at_or_below_n', 'resize_above_n', 'resize_unallocatable', 'resize_wrapping_byte_count',
-             'walks_audited', 'flattenings_audited', 'reversals'],
+             'walks_audited', 'flattenings_audited', 'reversals', 'elements_compared', 'getat_compared'],
     assumptions=['array model with the documented index convention (negative i -> n+i for insertion and access)'])
 
 
@@ -285,7 +285,7 @@ CHECKS['C15'] = dict(
          'the call must either complete correctly or report failure; after a reported failure the full content/counter comparison with the model (not updated) must hold; in every case the structural walker, a battery of normal operations, '
          'the allocation ledger at free() and ASan/UBSan must be clean, the process must not crash, and for containers built thread-safe (every other configuration) a second thread must be able to take the container lock right after the call; list tables additionally: save()/load() on real (memfd) files - a save reported as success must contain every entry - and the option flags (unique, case, sorted, inserttop, lookupforward) must be what they were. distinct = distinct (state, operation, key/variant, k, mode) tuples.',
     exhaustive=True,
-    require=['fault_positions_injected', 'oom_reported_failure', 'lock_probes_from_a_second_thread'],
+    require=['fault_positions_injected', 'oom_reported_failure', 'lock_probes_from_a_second_thread', 'walks_resumed_after_a_reported_allocation_failure', 'huge_element_operations'],
     assumptions=['allocation failures are injected through the malloc/calloc/realloc/strdup link-time interposers (NULL + errno=ENOMEM)',
                  'for void operations "reports failure" means errno==ENOMEM with contents unchanged'])
 
@@ -319,7 +319,7 @@ CHECKS['C13'] = dict(
          'a worker waiting for an owned mutex is disabled) when that fits the budget, else under budget DFS + budget random schedules; every history (invocation/response stamps, results, final contents) is searched for a linearization (Wing-Gong, memoised). '
          'stress mode: 4-8 truly concurrent threads with random delays at the same points, unique values; maps checked per key (P-compositionality), sequences by conservation / no-duplicate / not-from-the-future / per-producer FIFO rules (copying gets included), ordered lookups of the tree by a stored-by-an-earlier-put rule; the same workload on a TSan build. '
          'evaluation = one schedule executed (controlled) or one operation (stress); distinct = distinct schedules (choice sequences) + distinct stress outcome vectors.',
-    require=['schedules_executed', 'programs_enumerated_exhaustively', 'histories_linearizable', 'stress_histories', 'stress_histories_raced_under_tsan'],
+    require=['schedules_executed', 'programs_enumerated_exhaustively', 'histories_linearizable', 'stress_histories', 'stress_histories_raced_under_tsan', 'long_hold_scenarios'],
     san_ignore=None,
     assumptions=['pre-emption is injected only at outermost lock acquisition/release, library allocator calls and usleep; races between two unlocked accesses inside one segment are visible only to TSan on the stress runs',
                  'size() is not issued concurrently (unlocked read by design, not in the statement); it is read at quiescence',
@@ -335,7 +335,7 @@ CHECKS['C16'] = dict(
          '(empty names/values included, separators & or ; and =) assembled from encoded parts and parsed back, compared in chain order. Exhaustive over all byte strings of length 0..2 (quick) / 0..3 (thorough); random lengths to 4096. '
          'distinct = distinct input strings (lengths <= 2 and random) + query lists.',
     exhaustive=lambda res, tier: False,
-    require=['exhaustive_strings', 'random_strings', 'query_lists', 'url_strings', 'base64_strings', 'hex_strings'],
+    require=['exhaustive_strings', 'random_strings', 'query_lists', 'url_strings', 'base64_strings', 'hex_strings', 'long_strings'],
     assumptions=['reference Base64 encoder in h_codec.c, self-tested against the RFC 4648 section 10 vectors at start-up'])
 
 
@@ -360,7 +360,7 @@ CHECKS['C19'] = dict(
          'qstrtokenizer = that list; qstrgets with big (exact lines) and small buffers (pieces concatenate to the CR/LF-free text); qstrunchar, qstrrev, qstrupper/lower (ASCII only), qstrdup_between, qmemdup; qstrdupf/qstrcatf = the vsnprintf result for every length 0..80 and 2^k-3..2^k+3 (k = 8..14, thorough 17: the growth steps of the internal buffer), appended into exact room + guard bytes. All strings up to length 5 (quick) / 7 (thorough) over the significant alphabets, '
          'all (src,token,word) triples over {a,b,:}, random inputs to 2 KiB; exact-size heap blocks under ASan/UBSan. distinct = distinct (function group, input) pairs.',
     require=['calls:qstrtrim', 'calls:qstrtrim_head', 'calls:qstrtrim_tail', 'calls:qstrunchar', 'calls:qstrrev', 'calls:qstrupper', 'calls:qstrlower', 'calls:qmemdup', 'calls:qstrcpy', 'calls:qstrncpy',
-             'calls:qstrgets', 'calls:qstrtok', 'calls:qstrtokenizer', 'calls:qstrreplace', 'calls:qstrdup_between', 'replace_triples', 'random_inputs', 'format_lengths'],
+             'calls:qstrgets', 'calls:qstrtok', 'calls:qstrtokenizer', 'calls:qstrreplace', 'calls:qstrdup_between', 'replace_triples', 'random_inputs', 'format_lengths', 'replace_large_inputs'],
     assumptions=['reference definitions in h_string.c; empty search tokens for qstrreplace and nbytes > strlen(src) for qstrncpy are outside the domain', 'gcc 12 ASan/UBSan'])
 
 
